@@ -4,6 +4,9 @@
 -/
 import Keto.Model.Engine
 import Keto.Proofs.FactsTie
+import Keto.Spec.Membership
+import Keto.Spec.Positive
+import Keto.Proofs.EngineSound
 
 namespace Keto
 
@@ -41,5 +44,47 @@ theorem C02_clamp_explicit (E : Env) (g : Int) (hg : 1 ≤ g) (fuel : Nat) (q : 
 
 -- non-vacuity: the clamp really changes a request (r = 7 against g = 3 runs with 3).
 example : effDepth 7 3 = 3 ∧ effDepth (-1) 3 = 3 ∧ effDepth 2 3 = 2 ∧ effDepth 0 3 = 3 := by decide
+
+/-- Limits fail closed (positive fragment): whatever is allowed under limits `g` (global max depth),
+    `r` (request depth), `E.maxWidth` (max read width) and `E.pageSize` is allowed by the unbounded
+    semantics `Mem` — hitting a depth or width limit can lose an `isMember` answer but never create
+    one. This is literally a corollary of the soundness theorem `build_sound` (same statement as
+    `C01_sound_pos`), which is proved for arbitrary limits, fault oracle and fuel. -/
+theorem C02_fail_closed_pos (E : Env) (hc : Cfg.pos E.cfg) (g : Int) (fuel : Nat) (q : Tuple) (r : Int) :
+    (check E g fuel q r).1.memb = .isMember → Mem E.cfg E.T q :=
+  build_sound E hc fuel (.isAllowed q (effDepth r g) false) {} {} rfl {} _
+
+namespace C02ex
+
+/-- `doc.view = viewers.includes || parents.traverse(p => p.view)`, `folder.view = viewers.includes`. -/
+def cfg : Cfg := [
+  ⟨"doc", [⟨"viewers", [⟨"user", ""⟩], none⟩,
+           ⟨"parents", [⟨"folder", ""⟩], none⟩,
+           ⟨"view", [], some ⟨.or, [.computed "viewers", .ttu "parents" "view"]⟩⟩]⟩,
+  ⟨"folder", [⟨"viewers", [⟨"user", ""⟩], none⟩,
+              ⟨"view", [], some ⟨.or, [.computed "viewers"]⟩⟩]⟩]
+
+def env : Env where
+  cfg := cfg
+  strict := false
+  maxWidth := 100
+  T := [⟨"doc", 1, "parents", .set "folder" 2 ""⟩,
+        ⟨"folder", 2, "viewers", .id 7⟩,
+        ⟨"doc", 1, "viewers", .id 8⟩]
+  fails := fun _ => false
+  pageSize := 100
+
+def q : Tuple := ⟨"doc", 1, "view", .id 7⟩
+
+end C02ex
+
+-- non-vacuity: the limits matter on a positive configuration — the member (user 7 via folder 2) is found
+-- with global depth 5, is lost (not allowed, a limit was hit) with request depth 1, and in both cases the
+-- theorem's hypothesis `Cfg.pos` holds.
+example : Cfg.pos C02ex.env.cfg ∧
+    (check C02ex.env 5 200 C02ex.q 0).1.memb = .isMember ∧
+    (check C02ex.env 5 200 C02ex.q 1).1.memb ≠ .isMember ∧
+    0 < (check C02ex.env 5 200 C02ex.q 1).2.limitHits :=
+  ⟨Cfg.pos_of_posB (by decide), by decide, by decide, by decide⟩
 
 end Keto
